@@ -9,7 +9,7 @@ cd /verif
 mkdir -p /tmp/mut-evidence
 cp evidence/$prop.json /tmp/mut-evidence/$prop.json.bak 2>/dev/null
 ./run $prop $tier > /tmp/mut-evidence/$prop.$(basename $patch).log 2>&1; rc=$?
-grep -E '^(#|VIOLATION|KNOWN|INCONCLUSIVE|C[0-9]+ )' /tmp/mut-evidence/$prop.$(basename $patch).log | head -12
+grep -E '^(#|VIOLATION|KNOWN|INCONCLUSIVE|C[0-9]+ )' /tmp/mut-evidence/$prop.$(basename $patch).log | head -30
 cp /tmp/mut-evidence/$prop.json.bak evidence/$prop.json 2>/dev/null
 git -C /repo checkout -- . ; git -C /repo clean -fdq
 echo "exit=$rc"
